@@ -92,6 +92,7 @@ def run(rep, tier):
         if group == "asconcrypt":
             rule_open_flags(rep, m, build)
             rule_tag_before_success(rep, ir.Module.load(lri.json), fail)
+    rule_entropy_chain(rep, build)
     rep.floor("C19.D1", 18)      # about half of the call sites of today's tree: refactorings merge and split them
     rep.floor("C19.D2", 10)
     rep.floor("C19.D3", 2)
@@ -870,3 +871,41 @@ def _start_status(f, retop, env0):
         if d is not None and d.op == "phi":
             todo += [x for x, _ in d.d["inc"]]
     return None
+
+# ---------------------------------------------------------------------------
+LIB_ENTROPY_FAILURE = {"getrandom": {-1}, "getentropy": {-1}, "syscall": {-1}, "ascon_dev_random_read": {0},
+                       "ascon_dev_random_open": {-1}, "ascon_trng_generate": {0}}
+
+
+def rule_entropy_chain(rep, build):
+    """D8: the tools refuse to work when ascon_random() reports that the system
+    random source failed (the contract behind D2).  That contract is only as
+    good as the library chain behind it: ascon_random -> ascon_trng_generate ->
+    the system call wrapper.  The same exploration as D2 is applied to those
+    library functions: when the system primitive returns its error value and
+    the call is not retried, the function returns its own failure value."""
+    rid = "C19.D8"
+    rep.rule(rid, "library chain behind ascon_random: a failing system random source is reported as failure, not as success")
+    lr = repo.lower(build, group="lib", level="O0", langs=("c",))
+    m = ir.Module.load(lr.json)
+    from . import report as _report
+    fail = dict(IO_PRIMITIVES)
+    fail.update(LIB_ENTROPY_FAILURE)
+    probe = _report.Report("C19", "quick")
+    probe._known = []
+    for r in ("C19.D1", "C19.D2", "C19.D3"):
+        probe.rule(r, "")
+    n = 0
+    for f in m.defined():
+        if "/src/random/ascon-trng" not in f.srcfile and f.name != "ascon_random":
+            continue
+        if not any((c.callee or "") in fail for c in f.calls()):
+            continue
+        n += 1
+        explore(probe, m, f, fail, "library")
+    if n < 2:
+        raise repo.AnalysisBroken("%s: the entropy chain of the library was not found (%d functions)" % (rid, n))
+    for v in probe.violations:
+        rep.violation(rid, v.get("instance", "entropy-chain"), v.get("where", ""), v["message"], config="library")
+    if not probe.violations:
+        rep.instance(rid, n, {"functions": n, "calls_checked": probe.rules["C19.D1"]["instances"]})
